@@ -68,6 +68,11 @@ def proj_ent(i, m):
     return i[:3], m[:3]
 
 
+def proj_neg(i, m):
+    # refinement: the implementation's answer must be among the model's possible answers (flag computed by the model)
+    return [1], m
+
+
 TB_ROUTING = ['regexp.MatchString / full-segment match are oracles tabulated per case with Go\'s regexp package',
               'RouterJSR311: compiled template expressions are modelled segment-wise (DESIGN 3.3), valid for regex '
               'variables that cannot match "/" or the empty string and have no capture groups',
@@ -391,3 +396,27 @@ PROPS.update({
 PROPS['C13']['domains'].append(dict(name='ent', quick=4000, thorough=100000))
 PROPS['C13']['project']['ent'] = proj_ent
 PROPS['C13']['rule'] += ' | ' + RULE_ENT + ' (for C13: the ledger of the instrumenting provider around ReadEntity\'s gzip readers)'
+PROPS.update({
+    'C05': dict(
+        domains=[dict(name='neg', quick=30000, thorough=800000)],
+        verdicts=['c05_*'],
+        project={'neg': proj_neg},
+        prop_files=['props/C05.v'],
+        trivial_classes=('router-406', 'outside-premise'),
+        rule='registered-writer sets (json, xml, two custom types; installed through the verif hook), Produces lists (85% non-empty '
+             'over registered types: the premise; 15% arbitrary incl. */* and unregistered types), DefaultResponseContentType '
+             'none/json/xml, Accept headers of 1-4 ranges (types from Produces / */* / registered / foreign / near-misses) with '
+             'optional blanks at every legal position, 0-2 parameters with q at any position, q values incl. equal ones and 2% '
+             'unparsable, 8% no Accept, 10% after TraceLogger(nil); each request dispatched 6 times on a route that writes an '
+             'entity (map iteration order varies); distinct = distinct case text; non-trivial = the router admitted the request '
+             'and the premise holds',
+        trusted_base=['strconv.ParseFloat is an oracle: the q strings of the header ranked by the float it gives them',
+                      'encoding/json, encoding/xml (the body is decoded in the answered type)'],
+        assumptions=['premise of the property: Produces non-empty and every entry has a registered writer; q values parse '
+                     '(unparsable ones are outside the Accept grammar: compared with the model only)'],
+        explanation='Theorems Props.C05_ranking / C05_ties / C05_writer / C05_never_406 / C05_ows on the Coq model of sortedMimes / '
+                    'insertMime / EntityWriter / accessorAt (repaired code); the implementation\'s Content-Type must be among the '
+                    'model\'s possible answers (a singleton under the premise), the same for 6 repetitions, decode, never 406 '
+                    'when the router admitted.',
+    ),
+})
